@@ -41,6 +41,7 @@ JudgeC02(r) ==
     IN /\ r.panic = ""
        /\ r.ok = d.ok
        /\ r.owned_same
+       /\ r.alloc <= 64 * Len(r["in"]) + 262144      \* memory bounded by the input, whatever it claims
        /\ d.ok => /\ r.item = d.item
                   /\ r.reenc = SubSeq(r["in"], 1, d.n)
 
